@@ -28,6 +28,7 @@ class ReadRule(BaseRule):
         self.bf = bf
         self.delivered = []  # (kind, AV, state, node)
         self.decodes = []
+        self.gets = []  # (guarded, state, node): a sized get() and whether the queue is known to hold an element there
 
     def _is_buf(self, node):
         return astq.is_self_attr(node, self.bf)
@@ -63,6 +64,7 @@ class ReadRule(BaseRule):
                 if kind not in s.ts.get("puts", ()):
                     s.ts["puts"] = s.ts.get("puts", ()) + (kind,)
                 s.ts["buf_state"] = "maybe-nonempty"
+                s.ts["deque"] = "has-element"  # put() appends its argument, empty or not
                 g = (s.ts.get("bufgen", 0) + 1) % 2
                 s.ts["bufgen"] = g
                 sym = f"buflen#{g}"
@@ -72,6 +74,15 @@ class ReadRule(BaseRule):
                 return [Out("normal", s, const(None))]
             if f.attr in ("get", "get_all"):
                 s = st.copy()
+                if f.attr == "get" and pos:
+                    n_ = st.view(pos[0])
+                    sym = f"buflen#{st.ts.get('bufgen', 0)}"
+                    sized = any(isinstance(k, tuple) and len(k) == 4 and k[0] == "cmp" and ((k[1] == sym and ((k[2] in (">=", ">") and v is True) or (k[2] in ("<", "<=") and v is False)))
+                                                                                          or (k[3] == sym and ((k[2] in ("<=", "<") and v is True) or (k[2] in (">", ">=") and v is False))))
+                                for k, v in st.ts.items())
+                    zero = n_.kind == "const" and n_.val == 0
+                    self.gets.append((st.ts.get("deque") == "has-element" or sized or zero or st.facts.get(sym, (None, None))[0] is True, st, node))
+                s.ts["deque"] = "unknown"
                 if f.attr == "get_all":
                     s.ts["buf_state"] = "empty"
                 return [Out("normal", s, AV("unk", sym=f"from-buffer@{node.lineno}", tags=frozenset({"from-buffer"})))]
@@ -183,6 +194,23 @@ def run(ctx):
             ctx.ob(R1, fi.qual, f"{len(from_buf)} delivering paths take their bytes from the queue", bool(from_buf))
         # what is put into the queue is decoder output only
         badput = [st for kind, av, st, node in rule.delivered for p in st.ts.get("puts", ()) if "decoded" not in p and "raw" in p and st.facts.get("p:decode_content", (None, None))[0] is not False]
+    # ------------------------------------------------------------------ R10 a sized take from the queue cannot hit an empty deque
+    R10 = ctx.rule("C12-R10", "no reader fails on its own bookkeeping: every sized get() on the decoded-byte queue happens after a put() on the same path (put appends even an empty piece) or under a test that the queue holds at least the requested bytes - BytesQueueBuffer.get(n) raises RuntimeError on an empty deque, which would end a read(n) sequence with an exception instead of b''", "E4 typestate over read, read1, read_chunked")
+    n10 = 0
+    for name in ("read", "read1", "read_chunked"):
+        fi, rule, outs = analyse_reader(ctx, name)
+        seen = set()
+        for guarded, st, node in rule.gets:
+            n10 += 1
+            k = (node.lineno, guarded)
+            if k in seen:
+                continue
+            seen.add(k)
+            ctx.ob(R10, fi.qual, f"get() at line {node.lineno}: the queue holds an element (put earlier on the path, or size tested)", guarded,
+                   "" if guarded else "on this path nothing was put since the queue was last emptied and its size was not tested: when the decoder produced no output (e.g. only the gzip trailer arrived) the read raises RuntimeError('buffer is empty') instead of returning b''",
+                   witness=st.witness(), node=node)
+    ctx.sites(R10, n10, 2, "sized get() calls on the decoded-byte queue")
+
     # ------------------------------------------------------------------ R2 no empty piece
     R2 = ctx.rule("C12-R2", "streaming never yields an empty piece: every yield of body bytes in stream / read_chunked is guarded by the truthiness of the yielded value", "E3")
     ny = 0
@@ -416,6 +444,12 @@ def run(ctx):
     ctx.ob(R7, ri.qual, "readinto reads through read(len(b))", "self.read(len(b))" in astq.text(ri.node))
     itf = m.method(HR, "__iter__")
     ctx.ob(R7, itf.qual, "iteration reads through stream(decode_content=True)", "self.stream(decode_content=True)" in astq.text(itf.node))
+
+    # ------------------------------------------------------------------ shared with C13-R1: the raw reader neither hides a short body nor cuts a good one
+    from . import c13_rows
+    from .c13 import R1_TEXT
+    R13_1 = ctx.rule("C13-R1", "(shared with C13) " + R1_TEXT, "E5 decision table on _raw_read")
+    c13_rows.r1_raw_read(ctx, R13_1)
 
     # ------------------------------------------------------------------ R8 shared with C13-R9
     from .c13 import rule_chunk_state
